@@ -256,7 +256,7 @@ func analyseHandle4(c *Ctx) *h4 {
 		c.R.Fatalf("ANCHOR-UNRESOLVED: HandleMsg4 does not call dhcpv4.FromBytes / NewReplyFromRequest")
 		return nil
 	}
-	h.reReq = reQ(pkgDHCP4) + `\.FromBytes@t\d+\([^)]*\)#0`
+	h.reReq = reQ(pkgDHCP4) + `\.FromBytes@(?:[\w$]+·)?t\d+\([^)]*\)#0`
 	h.di = findDispatch(c, fn, "handlers")
 	h.ss = statesAt(c, fn, func(in ssa.Instruction) bool {
 		if isSendSite(in) != "" {
@@ -283,10 +283,10 @@ func (h *h4) filterAtoms(c *Ctx, st *State) (parseOK, op, replyOK, mt int) {
 	boot := c.P.mustConst(c.R, pkgDHCP4, "OpcodeBootRequest")
 	disc := c.P.mustConst(c.R, pkgDHCP4, "MessageTypeDiscover")
 	reqm := c.P.mustConst(c.R, pkgDHCP4, "MessageTypeRequest")
-	parseOK, _ = histFact(st, "nil", regexp.MustCompile(`^`+reQ(pkgDHCP4)+`\.FromBytes@t\d+\([^)]*\)#1$`))
+	parseOK, _ = histFact(st, "nil", regexp.MustCompile(`^`+reQ(pkgDHCP4)+`\.FromBytes@(?:[\w$]+·)?t\d+\([^)]*\)#1$`))
 	op, _ = histEq(st, regexp.MustCompile(`^`+h.reReq+`\.OpCode$`), boot)
-	replyOK, _ = histFact(st, "nil", regexp.MustCompile(`^`+reQ(pkgDHCP4)+`\.NewReplyFromRequest@t\d+\(.*\)#1$`))
-	mt = histEqIn(st, regexp.MustCompile(`^\(\*`+reQ(pkgDHCP4)+`\.DHCPv4\)\.MessageType(@t\d+)?\(`+h.reReq+`\)$`), []string{disc, reqm})
+	replyOK, _ = histFact(st, "nil", regexp.MustCompile(`^`+reQ(pkgDHCP4)+`\.NewReplyFromRequest@(?:[\w$]+·)?t\d+\(.*\)#1$`))
+	mt = histEqIn(st, regexp.MustCompile(`^\(\*`+reQ(pkgDHCP4)+`\.DHCPv4\)\.MessageType(@(?:[\w$]+·)?t\d+)?\(`+h.reReq+`\)$`), []string{disc, reqm})
 	return
 }
 
@@ -358,7 +358,7 @@ func ruleV4Filter(c *Ctx, rule string) {
 			continue
 		}
 		// permitted drop: the interface for the L2 reply cannot be resolved
-		if pe, _ := histFact(e.St, "nil", regexp.MustCompile(`^net\.InterfaceByIndex@t\d+\(.*\)#1$`)); pe == 0 {
+		if pe, _ := histFact(e.St, "nil", regexp.MustCompile(`^net\.InterfaceByIndex@(?:[\w$]+·)?t\d+\(.*\)#1$`)); pe == 0 {
 			continue
 		}
 		// permitted drop: neither a bound interface nor a receiving interface is known
@@ -398,7 +398,7 @@ func ruleV4TypeMap(c *Ctx, rule string) {
 	ack := c.P.mustConst(c.R, pkgDHCP4, "MessageTypeAck")
 	want := map[string]string{disc: offer, reqm: ack}
 	got := map[string]map[string]bool{}
-	mtRe := regexp.MustCompile(`^\(\*` + reQ(pkgDHCP4) + `\.DHCPv4\)\.MessageType(@t\d+)?\(` + h.reReq + `\)$`)
+	mtRe := regexp.MustCompile(`^\(\*` + reQ(pkgDHCP4) + `\.DHCPv4\)\.MessageType(@(?:[\w$]+·)?t\d+)?\(` + h.reReq + `\)$`)
 	for _, in := range sortedInstrs(h.ss.Sites) {
 		call, ok := in.(*ssa.Call)
 		if !ok || isSendSite(in) != "" {
@@ -653,7 +653,7 @@ func ruleAddrCascade(c *Ctx, prefix string) {
 	cport := c.P.mustConst(c.R, pkgDHCP4, "ClientPort")
 	reG := regexp.MustCompile(`^\(net\.IP\)\.IsUnspecified\(` + h.reReq + `\.GatewayIPAddr\)$`)
 	reC := regexp.MustCompile(`^\(net\.IP\)\.IsUnspecified\(` + h.reReq + `\.ClientIPAddr\)$`)
-	reB := regexp.MustCompile(`^\(\*` + reQ(pkgDHCP4) + `\.DHCPv4\)\.IsBroadcast(@t\d+)?\(` + h.reReq + `\)$`)
+	reB := regexp.MustCompile(`^\(\*` + reQ(pkgDHCP4) + `\.DHCPv4\)\.IsBroadcast(@(?:[\w$]+·)?t\d+)?\(` + h.reReq + `\)$`)
 	rowsSeen := map[string]int{}
 	type res struct {
 		bad string
@@ -678,7 +678,7 @@ func ruleAddrCascade(c *Ctx, prefix string) {
 			// N: resp.MessageType() == Nak on the sent value
 			sv := sentValue(in)
 			svc := ex.Canon(st, sv).S
-			reN := regexp.MustCompile(`^\(\*` + reQ(pkgDHCP4) + `\.DHCPv4\)\.MessageType(@t\d+)?\(` + reQ(svc) + `\)$`)
+			reN := regexp.MustCompile(`^\(\*` + reQ(pkgDHCP4) + `\.DHCPv4\)\.MessageType(@(?:[\w$]+·)?t\d+)?\(` + reQ(svc) + `\)$`)
 			N, _ := histEq(st, reN, nak)
 			// expected row
 			row, wantIP, wantPort, wantL2 := "", "", "", false
@@ -717,8 +717,8 @@ func ruleAddrCascade(c *Ctx, prefix string) {
 					siteRes[in].st = st
 					continue
 				}
-				ipE, ok1 := st.lookupStore("new@" + al.Name() + ".IP")
-				ptE, ok2 := st.lookupStore("new@" + al.Name() + ".Port")
+				ipE, ok1 := st.lookupStore("new@" + anm(al) + ".IP")
+				ptE, ok2 := st.lookupStore("new@" + anm(al) + ".Port")
 				if !ok1 || !ok2 {
 					siteRes[in].bad = "peer literal does not set both IP and Port"
 					siteRes[in].st = st
@@ -762,7 +762,7 @@ func ruleAddrCascade(c *Ctx, prefix string) {
 			if isNilConst(wv) {
 				got = "nil"
 			} else if al, ok := wv.(*ssa.Alloc); ok {
-				if e, ok := st.lookupStore("new@" + al.Name() + ".IfIndex"); ok {
+				if e, ok := st.lookupStore("new@" + anm(al) + ".IfIndex"); ok {
 					got = e.ce.S + e.suffix
 				}
 			}
@@ -955,7 +955,7 @@ func ruleAddrListener(c *Ctx, rule string) {
 			case *ssa.Store:
 				if fa, ok := x.Addr.(*ssa.FieldAddr); ok && fieldName(fa) == "Interface" {
 					v := ex.Canon(st, x.Val).S
-					if regexp.MustCompile(`^net\.InterfaceByName@t\d+\(\$0\.Zone\)#0$`).MatchString(v) {
+					if regexp.MustCompile(`^net\.InterfaceByName@(?:[\w$]+·)?t\d+\(\$0\.Zone\)#0$`).MatchString(v) {
 						return "iface"
 					}
 				}
